@@ -1,4 +1,5 @@
 import PgBifrost.Driver.Ledger
+import PgBifrost.Driver.Batcher
 /-! `bfmodel`: line-protocol driver for the executable models (core Lean only, so it links).
 One request line in, one answer line out. First word selects the model. -/
 open PgBifrost
@@ -6,11 +7,16 @@ open PgBifrost
 structure DriverState where
   ledger : Driver.Ledger.DState := some {}
   ledgermon : Driver.Ledger.MonState := {}
+  batcher : Driver.Batcher.DState := {}
+  batch : Driver.Batcher.BState := {}
 
 def dispatch (st : DriverState) (line : String) : DriverState × String :=
   match Util.words line with
   | "ledger" :: args => let (s, out) := Driver.Ledger.handle st.ledger args; ({ st with ledger := s }, out)
   | "ledgermon" :: args => let (s, out) := Driver.Ledger.monHandle st.ledgermon args; ({ st with ledgermon := s }, out)
+  | "batcher" :: args => let (s, out) := Driver.Batcher.handle st.batcher args; ({ st with batcher := s }, out)
+  | "batch" :: args => let (s, out) := Driver.Batcher.batchHandle st.batch args; ({ st with batch := s }, out)
+  | "crc" :: args => (st, Driver.Batcher.crcHandle args)
   | ["ping"] => (st, "pong")
   | _ => (st, "bad-op")
 
